@@ -27,9 +27,9 @@ EXPLANATION = (
 ASSUMPTIONS = ["A1 z3 sound", "A2 numpy object-array semantics", "np.random.randint replaced by symbolic outcomes during compile()",
                "density-matrix backend: by composition with C01 (each op of the returned circuit is in C01's op set); not re-simulated here",
                "A5 networkx conversions faithful (graph-typed target only)"]
-BOUNDS = {"quick": {"graphs": "all labelled simple graphs on n<=3 vertices (stabilizer-typed target), n<=3 (graph-typed target)"},
-          "thorough": {"graphs": "n<=5 (stabilizer-typed), n<=4 (graph-typed)"}}
-OUTSIDE = "density-matrix-typed targets (density_to_graph is eigen-decomposition based); n>=6; noise maps"
+BOUNDS = {"quick": {"graphs": "all labelled simple graphs on n<=3 vertices with symbolic compile outcomes, n=4 with forced outcome 1 in compile (reference execution: all outcomes); budgeted partial looks at n=5, n=6; graph-typed target n<=3"},
+          "thorough": {"graphs": "n<=5 with symbolic compile outcomes, all 32768 labelled graphs on 6 vertices with forced outcome 1 in compile; graph-typed n<=4"}}
+OUTSIDE = "density-matrix-typed targets (density_to_graph is eigen-decomposition based); n>=7; noise maps"
 
 
 def graph_rows(adj, n, n_total):
@@ -156,8 +156,17 @@ def plan(tier):
         h.parallel = True
         h.partial_ok = True
         jobs.append((h, {"time_budget": 60, "chunk_paths": 8, "chunk_s": 8.0}))
+        h = Solve(n=6, target_type="stabilizer", det=1)
+        h.parallel = True
+        h.partial_ok = True
+        jobs.append((h, {"time_budget": 60, "chunk_paths": 4, "chunk_s": 8.0}))
     else:
         h = Solve(n=5, target_type="stabilizer", det="probabilistic")
         h.parallel = True
         jobs.append((h, {"time_budget": 5400, "chunk_paths": 16}))
+        # all 32768 labelled graphs on 6 vertices, compile() with forced outcome 1 (the reference execution still
+        # quantifies over every outcome vector)
+        h = Solve(n=6, target_type="stabilizer", det=1)
+        h.parallel = True
+        jobs.append((h, {"time_budget": 4 * 3600, "chunk_paths": 16}))
     return jobs
